@@ -25,6 +25,9 @@ type streamObs struct {
 	SubErr string `json:"sub_err,omitempty"`
 }
 
+// set around a scenStream call: consumers of kind "never" stay away this much longer after everything else has finished
+var neverExtraStall time.Duration
+
 // cause: "normal" | "fin@j" | "rst@j" | "stop@j"  (the fault strikes once stream 0's consumer has j values)
 func scenStream(specs []streamSpec, unary int, cause string, at int, subBuf int, reconnect bool) *connRun {
 	e := newConnEnv(connOpts{noReconnect: !reconnect})
@@ -207,6 +210,11 @@ func scenStream(specs []streamSpec, unary int, cause string, at int, subBuf int,
 	if cause == "normal" || reconnect {
 		time.Sleep(5 * time.Millisecond)
 	}
+	if neverExtraStall > 0 {
+		// the stalled consumers stay away for a long time after the server side has closed their streams
+		time.Sleep(neverExtraStall)
+		params["stalled_ms_after_close"] = neverExtraStall.Milliseconds()
+	}
 	close(neverRelease) // stalled consumers finally read: their channels must deliver what was buffered and then close
 	cdone := make(chan struct{})
 	go func() { cwg.Wait(); close(cdone) }()
@@ -367,6 +375,11 @@ func init() {
 			// a subscriber that never reads while its handler sends far more than any internal buffer holds: ordinary calls
 			// and other subscriptions on the connection must not be held up
 			emit(scenStream([]streamSpec{{N: 12000, Consumer: "never"}, {N: 6, Consumer: "fast"}}, 2, "normal", 0, 0, false))
+			// a subscriber that comes back to its channel long after the handler has sent everything and closed: what was
+			// buffered for it must still be there, whole and in order
+			neverExtraStall = 5600 * time.Millisecond
+			emit(scenStream([]streamSpec{{N: 45, Consumer: "never"}, {N: 5, Consumer: "fast"}}, 1, "normal", 0, 0, false))
+			neverExtraStall = 0
 			// non-scalar elements (optional slice / map / pointer fields that differ from one element to the next)
 			emit(scenStream([]streamSpec{{N: 12, Consumer: "fast", Struct: true}}, 0, "normal", 0, 0, false))
 			emit(scenStream([]streamSpec{{N: 30, Consumer: "slow", Struct: true}, {N: 30, Consumer: "fast"}, {N: 9, Consumer: "fast", Struct: true}}, 1, "normal", 0, 4, false))
